@@ -137,6 +137,9 @@ var clauseKeywords = map[string]bool{
 // normaliseFuncKey turns "(*Cursor).Pos" into "(*pkgpath.Cursor).Pos" and "Name" into "pkgpath.Name".
 func normaliseFuncKey(raw, pkgPath string) string {
 	raw = strings.TrimSpace(raw)
+	if strings.HasPrefix(raw, "field:") {
+		return raw
+	}
 	if strings.HasPrefix(raw, "(") {
 		end := strings.Index(raw, ")")
 		recv := raw[1:end]
